@@ -352,6 +352,13 @@ EXT_PROBES = [
     # block-set filter argument read before a later assignment (fixed in /repo, see known_findings.d/C03.json)
     ([("setb", "b", [_say(("s", "q"))], ("rep", ("n", "c"))), _say(("n", "b")), ("set", "c", ("s", "Q"))], {"c": ("plain", "Z")}),
     ([("filt", ("rep", ("n", "c")), [_say(("s", "q"))]), ("set", "c", ("s", "Q"))], {"c": ("plain", "Z")}),
+    # namespace(source) copies: neither the source nor a second namespace made from it changes with the first
+    ([("nsnew", "n", [(None, ("n", "a"))]), ("seta", "n", "v", ("s", "new")), _say(("attr", "a", "v"), ("s", "|"), ("attr", "n", "v")),
+      ("nsnew", "b", [(None, ("n", "a"))]), _say(("s", "|"), ("attr", "b", "v"), ("n", "a"))], {"a": ("dict", [("v", "old"), ("w", 1)])}),
+    ([("nsnew", "n", [(None, ("n", "a")), ("w", ("i", 2))]), ("seta", "n", "v", ("i", 6)), _say(("attr", "a", "v"), ("attr", "a", "w"), ("attr", "n", "w"))],
+     {"a": ("dict", [("v", 0)])}),
+    ([("nsnew", "n", [(None, ("n", "a"))]), ("for", "c", ("s", "pq"), None, [("seta", "n", "v", ("cat", ("attr", "n", "v"), ("n", "c")))], []),
+      _say(("attr", "n", "v"), ("n", "a"))], {"a": ("plain", [["v", "x"]])}),
     # round 9 (fixed in /repo): assignments in the body of a filter block / block set leaked into the tag's arguments
     ([("set", "c", ("s", "o")), ("filt", ("rep", ("n", "c")), [("set", "c", ("s", "i")), _say(("s", "A"))])], {}),
     ([("set", "c", ("s", "o")), ("setb", "b", [("set", "c", ("s", "i")), _say(("s", "A"))], ("rep", ("n", "c"))), _say(("n", "b"))], {}),
@@ -364,7 +371,7 @@ def extended_stream(run_, ctx, rng, keep):
         ext_judge(ctx, env, p, ds, kind="ext-probe")
     for p, ds in R.special_sweep():
         ext_judge(ctx, env, p, ds, kind="ext-special")
-    n = ctx.size(1200, 10000)
+    n = ctx.size(1000, 10000)
     for i in range(n):
         g = R.EGen(rng, size=rng.randint(3, ctx.size(14, 22)))
         p = g.program()
@@ -388,7 +395,7 @@ def config_stream(run_, ctx, rng, keep):
     cf = C.Configs(run_.jinja2)
     run_.ext_env = ext_env(run_.jinja2)
     ctx.extra["configurations"] = {"explored": C.NAMES, "excluded": C.EXCLUDED}
-    n = ctx.size(750, 6000)
+    n = ctx.size(650, 6000)
     for i in range(min(n, len(keep))):
         p, ds, src, base = keep[rng.randrange(len(keep))]
         name = C.NAMES[i % len(C.NAMES)]
